@@ -496,6 +496,19 @@ func (r *run) callSSA(caller *frame, callpos token.Pos, fn *ssa.Function, args [
 		panic(unsupported{"uninstantiated generic " + fn.String()})
 	}
 	r.e.noteFunc(fn)
+	if r.traceCalls && fn.Pkg != nil && strings.HasPrefix(fn.Pkg.Pkg.Path(), modulePath) && fn.Name() != "init" {
+		d := 0
+		for c := caller; c != nil; c = c.caller {
+			d++
+		}
+		if d < 12 {
+			var as []string
+			for _, a := range args {
+				as = append(as, truncate(toString(a), 40))
+			}
+			fmt.Fprintf(os.Stderr, "  [%s] %s%s(%s)\n", th.name, strings.Repeat(". ", d), fn.String(), strings.Join(as, ", "))
+		}
+	}
 	if fn.Pkg != nil && atomicPkgs[fn.Pkg.Pkg.Path()] {
 		r.atomicDepth++
 		defer func() { r.atomicDepth-- }()
